@@ -965,12 +965,21 @@ func sumFileName(p *core.Program) string {
 	if save == nil {
 		return ""
 	}
-	info := save.Info()
+	// Save itself, or the helper of the package that builds the path for it
 	name := ""
-	for _, c := range core.Calls(save.Body, true) {
-		if core.CalleeName(info, c) == "path/filepath.Join" && len(c.Args) == 2 {
-			if tv, ok := info.Types[c.Args[1]]; ok && tv.Value != nil && tv.Value.Kind() == constant.String {
-				name = constant.StringVal(tv.Value)
+	for f := range reachableFrom(p, save) {
+		if f.Body == nil || f.Pkg != save.Pkg {
+			continue
+		}
+		info := f.Info()
+		for _, c := range core.Calls(f.Body, true) {
+			if n := core.CalleeName(info, c); (n == "path/filepath.Join" || n == "path.Join") && len(c.Args) == 2 {
+				if tv, ok := info.Types[c.Args[1]]; ok && tv.Value != nil && tv.Value.Kind() == constant.String {
+					if name != "" && name != constant.StringVal(tv.Value) {
+						return ""
+					}
+					name = constant.StringVal(tv.Value)
+				}
 			}
 		}
 	}
